@@ -53,8 +53,9 @@ class C02(DiffProperty):
     level_note = ("partial: (1) liveness is proved for the reader side of the glue: C02_dispatch_delivers (in any reachable glue state, once a complete accepted frame is in the "
                   "input ring ONE mpt_stream_dispatch hands a message to the handler: streamRecv enlarges by 64 as often as the decoder asks, every round consumes at least 47 "
                   "bytes of the frame -- C02_ring_round_progress, C02_ring_dispatch_policy_delivers, C02_stream_recv_delivers; C02_glue_dispatch_all: when the unread bytes of the input "
-                  "ring are the frames of n messages, n dispatches hand over exactly the next n completed messages and nothing is left), but not for the transport: that flush and poll "
-                  "move every finished byte through the kernel oracle is decided against the specification only (two stall defects of exactly this kind were found by the "
+                  "ring are the frames of n messages, n dispatches hand over exactly the next n completed messages and nothing is left), and per step for the transport (C02_glue_flush_all, C02_glue_poll_progress: with a kernel "
+                  "that takes what it is offered a flush empties the finished part of the output ring and a poll loads at least one byte); that a whole drain composes these steps "
+                  "to the end is decided against the specification only (two stall defects of exactly this kind were found by the "
                   "thorough tier and by the input-object cases, and repaired: one enlargement only; the stream input returning MissingBuffer to the event loop); "
                   "(2) not modelled: poll() paths with a timeout, POLLOUT handling, memory-mapped and text-mode "
                   "streams. The glue model is tied to the code by differential execution with scripted transfers (three defects were found in the glue and repaired). "
